@@ -299,6 +299,19 @@ def family_f64(ctx, scale):
         e2 = e + len(D) - len(D2)
         D2 = str(int(D2) + rng.choice([0, 0, 1, 1, -1, 2]))
         yield 'near-mid-%s' % ('19' if n <= 19 else 'long'), spell(rng, D2, e2, rng.choice(['sci', 'intexp', 'shift']))
+    # trailing zeros after the significant digits of a long fraction (parse_truncated_float trims them before counting digits)
+    for _ in range(3000 * scale):
+        E = rng.randrange(1, 2046)
+        M, k = F64.parts((E << 52) | rng.randrange(1 << 52))
+        D, e = norm_digits(*exact_digits(2 * M + 1, k - 1))
+        n = rng.choice([17, 19, 20, 21, 30, 40, 100])
+        D2 = (D + '0' * n)[:n]
+        D2 = str(int(D2) + rng.choice([0, 1, -1]))
+        e2 = e + len(D) - len(D2)
+        z = rng.choice([1, 2, 5, 19, 50, 300, 740, 760, 800])
+        j = rng.randrange(0, len(D2))
+        lit = (D2[:j] or '0') + '.' + D2[j:] + '0' * z + exp_text(rng, e2 + len(D2) - j)
+        yield 'trailing-zeros-long', (rng.choice(['', '', '-']) + lit).encode()
     # F(c). long digit strings
     for _ in range(2000 * scale):
         n = rng.choice([20, 21, 25, 50, 100, 300, 767, 768, 769, 770, 800, 1200])
@@ -691,7 +704,7 @@ def check_algorithm(ctx, cfg, lits64, lits32, binary):
     for i, (line, fmt, m, e) in enumerate(cases):
         a = io[i]
         f = a.split(' ')
-        if line.startswith('lx t') and f[0] != 'MISMATCH':
+        if line.startswith('lx t') and len(f) > 2 and f[0].isdigit():
             f = f[2:]
         paths[f[0]] = paths.get(f[0], 0) + 1
         bits, _ = rne(m, e, fmt)
